@@ -392,12 +392,40 @@ def read(prog, rep):
     fn = prog.func(q)
     rep.analysed(fn)
     b = builder(prog, fn, inline=False)
+    entry, entry_b = fn, b
     calls = find_calls(fn, b, lambda t, n: t[0] == "call" and t[1] == G("pandas.read_csv"))
+    fp = P("file_path")
+    # the parsing may sit in a helper of the package: it must get the path, its result must be returned, and it must not be memoised
+    helpers = find_calls(fn, b, lambda t, n: t[0] == "call" and t[1][0] == "func" and t[1][1] in prog.functions)
+    memo = []
+    for _st, _n, ht in helpers:
+        h = prog.functions[ht[1][1]]
+        if any("lru_cache" in d or d.endswith("cache") or "cached" in d for d in h.decorators):
+            memo.append(h)
+    rep.check(not memo, "C20.read", f"{q}:reads-the-file", fn.where(), "every call reads the file (no memoised loader)",
+              f"the file is parsed by {[h.qualname for h in memo]}, which is memoised on its arguments: after the first call the rows of the FIRST read are returned "
+              "even when the file at that path has been rewritten")
+    if not calls:
+        for _st, _n, ht in helpers:
+            h = prog.functions[ht[1][1]]
+            hb = builder(prog, h, inline=False)
+            hc = find_calls(h, hb, lambda t, n: t[0] == "call" and t[1] == G("pandas.read_csv"))
+            if len(hc) == 1 and h.positional_params:
+                arg0 = ht[2][0] if ht[2] else None
+                inner0 = arg0[2][0] if arg0 is not None and arg0[0] == "call" and arg0[1] in (G("str"), G("os.fspath"), G("pathlib.Path")) and len(arg0[2]) == 1 else arg0
+                passes = inner0 is not None and any(a in (fp, ("call", G("str"), (fp,), ())) for a in alts(inner0))
+                rets0 = [s for s in cfg_of(fn).all_stmts() if isinstance(s, ast.Return)]
+                rt0 = b.term(rets0[0].value, rets0[0]) if len(rets0) == 1 else None
+                back = rt0 in (ht, ("call", ("attr", ht, "copy"), (), ()))
+                rep.check(passes and back, "C20.read", f"{q}:delegates", fn.where(_st), f"parsing delegated to {h.name}(file_path), result returned",
+                          f"the helper {h.name} must receive the given path and its frame must be what is returned; found call {show(ht)[:100]}, returns {show(rt0)[:80] if rt0 else None}")
+                fn, b, calls, fp = h, hb, hc, P(h.positional_params[0])
+                rep.analysed(h)
+                break
     if len(calls) != 1:
         raise AnalysisError(f"{q}: expected one pd.read_csv call")
     st, node, t = calls[0]
     kw = dict(t[3])
-    fp = P("file_path")
     ok = t[2] and fp in alts(t[2][0]) and kw.get("sep") == ("const", ";") and kw.get("skipinitialspace") == ("const", True)
     rep.check(bool(ok), "C20.read", f"{q}:read_csv", fn.where(st), "read_csv(file_path, sep=';', skipinitialspace=True)",
               f"the file must be read from the given path with ';' as separator; found {show(t)[:160]}")
